@@ -368,6 +368,29 @@ def directed_match(ck, queries):
                     break
 
 
+def corr_from_atom(ck):
+    """QueryElement.from_atom on synthetic and corpus atoms, every combination of the five flags"""
+    from chython.periodictable import QueryElement
+    rng = random.Random(f'{ck.seed}:c08-from-atom')
+    atoms = atom_grid(ck, rng)
+    atoms = [a for a in atoms if a.iso != 0][:: (4 if ck.tier == 'quick' else 1)]
+    bt = Batches('c08_from', extra='Import ListNotations. Open Scope Z_scope.')
+    for a in atoms:
+        ra = a.real()
+        rows, flagsets = [], list(itertools.product((False, True), repeat=5))
+        for f_nb, f_hyb, f_het, f_h, f_rings in flagsets:
+            try:
+                q = QueryElement.from_atom(ra, neighbors=f_nb, hybridization=f_hyb, heteroatoms=f_het, hydrogens=f_h, ring_sizes=f_rings)
+                rows.append(show_qatom(q) + ('1' if q == ra else '0'))
+            except Exception as e:
+                rows.append(sexn(e))
+            ck.case(('from_atom-grid', a.key(), f_nb, f_hyb, f_het, f_h, f_rings), nontrivial=bool(a.rings))
+        bt.add(f'b_from_atom {a.term()} {cstr(chr(10).join(rows))}', (a.key(), rows))
+    ck.count('from_atom:atoms', len(atoms))
+    ok, bad, log = bt.run()
+    return conclude(ck, 'QueryElement.from_atom == from_atom (all 32 flag combinations; built query and whether it matches its atom)', bt, ok, bad, log)
+
+
 # ----------------------------------------------------------------------------------------------------------------
 # correspondence 2: QueryBond.__eq__(Bond), exhaustive
 
@@ -1157,8 +1180,14 @@ def search_rdkit(ck):
             '[13CH3]O', 'CS(=O)(=O)N', 'C1CCCCCCC1', 'C12CC1C2'] + corpus.sample(corpus.lipo(), 110 if ck.tier == 'quick' else 1500, ck.seed, 'c08-rdkit')
     qcache = {}
     def query(text):
+        """the query of a documented SMARTS; None (and a counterexample) when the implementation rejects it"""
         if text not in qcache:
-            qcache[text] = smarts(text)
+            try:
+                qcache[text] = smarts(text)
+            except Exception as e:
+                qcache[text] = None
+                ck.counterexample('smarts-documented-rejected', 'a SMARTS of the documented subset is rejected', {'smarts': text}, f'{type(e).__name__}: {e}',
+                                  'a query', 'documentation of smarts()', replay_py=f"from chython import smarts\nprint(smarts({text!r}))")
         return qcache[text]
     disagreements = 0
     for smi in pool:
@@ -1208,6 +1237,8 @@ def search_rdkit(ck):
         for text, pred, reads in tests:
             if text == '[M]' and has_metal:
                 continue
+            if query(text) is None:
+                continue
             qa = query(text).atom(1)
             for n, a in m.atoms():
                 t = attrs[n - 1]
@@ -1232,7 +1263,7 @@ def search_rdkit(ck):
             if reads and any(not attrs[n - 1]['unique_rings'] or raw[n][:3] != (attrs[n - 1]['nb'], attrs[n - 1]['het'], attrs[n - 1]['hyb'])
                              or a.implicit_hydrogens != attrs[n - 1]['h'] or a.is_radical for n, a in m.atoms()):
                 continue
-            if text == '[M]' and has_metal:
+            if (text == '[M]' and has_metal) or query(text) is None:
                 continue
             got = sorted(mp[1] for mp in query(text).get_mapping(m, _cython=False, automorphism_filter=False))
             want = sorted(n for n in m._atoms if pred(attrs[n - 1]))
@@ -1246,6 +1277,8 @@ def search_rdkit(ck):
             continue
         for sp in ('-', '=', '#', ':', '~', '-,=', '=,:', '!-', '!:', '-;@', '-;!@', '=;@', ':;@', '!-;!@', '-,=;@'):
             want_o, want_r = ref_bond(sp)
+            if query('[A]' + sp + '[A]') is None:
+                continue
             qb = query('[A]' + sp + '[A]')._bonds[1][2]
             for n, k, bd in m.bonds():
                 o, r = rbonds.get(frozenset((n, k)), (None, None))
@@ -1281,7 +1314,7 @@ def run(ck):
     tied = True
     import time
     timing = {}
-    for fn in (corr_match, corr_bonds, corr_labels, corr_parse, corr_tokens, corr_bond_spellings):
+    for fn in (corr_match, corr_from_atom, corr_bonds, corr_labels, corr_parse, corr_tokens, corr_bond_spellings):
         t0 = time.time()
         tied = fn(ck) and tied
         timing[fn.__name__] = round(time.time() - t0, 1)
